@@ -4,8 +4,8 @@ from props import _fetch
 
 LEVEL = "proof"
 MODULE = "Phil.Props.C04"
-LEVEL_TEXT = "Lean theorems about the merge model: for every master and every source list every object at every depth of a fetch result is a copy of an enabled master object with the master's name, kind and attributes, in the master's order, non-multiple names exactly once, disabled sources without influence (fetch_shape, fetch_conforms, fetch_order, fetch_ignores_disabled); closed forms: on nested masters without .multiple (fetch_tree_total: tree_result_shape/paths), with .multiple definitions (fetch_tree_multi_total) and with .multiple scopes nested to any depth, optional or mandatory (fetch_ms_total: ms_result_blocks, ms_block_members, ms_plain_exactly_once, ms_result_paths). Tied to /repo by a correspondence run of fetch (result skeleton) over generated masters x 0-3 sources; the oracle walks the implementation's result against the master as the statement says, incl. stateful use (fetch, in-place adopt_scope, fetch again)."
-LEVEL_NOTE = "Closed forms exclude further master occurrences of one name, choices and deprecated definitions (covered by the general shape theorems + correspondence). Aliases (.alias) are not modelled; known finding: alias fall-through (pinned by the suite's test_alias_bug)."
+LEVEL_TEXT = "Lean theorems about the merge model: for every master and every source list every object at every depth of a fetch result is a copy of an enabled master object with the master's name, kind and attributes, in the master's order, non-multiple names exactly once, disabled sources without influence (fetch_shape, fetch_conforms, fetch_order, fetch_ignores_disabled); closed forms: on nested masters without .multiple (fetch_tree_total: tree_result_shape/paths), with .multiple definitions (fetch_tree_multi_total) and with .multiple scopes nested to any depth, optional or mandatory, also with further master occurrences of a .multiple name (fetch_ms_total, fetch_ms2_total: ms_result_blocks, ms2_result_blocks, ms_plain_exactly_once, ms2_plain_exactly_once, ms_result_paths). Tied to /repo by a correspondence run of fetch (result skeleton) over generated masters x 0-3 sources; the oracle walks the implementation's result against the master as the statement says, incl. stateful use (fetch, in-place adopt_scope, fetch again; results edited in place between fetches, judged against an independent parse of the master text)."
+LEVEL_NOTE = "Closed forms exclude choices and deprecated definitions inside .multiple scopes (covered by the general shape theorems + correspondence). Aliases (.alias) are not modelled; the alias fall-through is pinned by the suite's test_alias_bug. Content of template copies is shared with the master (finding D21, C17)."
 TECHNIQUE = 'Lean 4 shape theorems + closed form of fetch (incl. .multiple scopes) + differential correspondence + tree-walk oracle'
 RULE = ("masters (depth <= 3, every built-in type, .multiple/.optional combinations incl. multiples nested in multiple scopes, "
         "disabled objects, expert levels, non-canonical defaults, further occurrences) x 0-3 sources (matching, partial, unknown "
